@@ -212,10 +212,12 @@ package vm
 //@ func appendSlice
 //@ props C04
 //@ like template.pure
+//@ ensures [C08] nosentinel: notSentinel(result.1) && result.1 != ErrInterrupt
 
 //@ func makeValue
 //@ props C04
 //@ like template.pure
+//@ ensures [C08] nosentinel: notSentinel(result.1) && result.1 != ErrInterrupt
 
 //@ func precedenceOfKinds
 //@ props C04
@@ -232,6 +234,7 @@ package vm
 //@ func tryToBool
 //@ props C04
 //@ like template.pure
+//@ ensures [C08] nosentinel: notSentinel(result.1) && result.1 != ErrInterrupt
 
 //@ func toFloat64
 //@ props C04
@@ -240,6 +243,7 @@ package vm
 //@ func tryToFloat64
 //@ props C04
 //@ like template.pure
+//@ ensures [C08] nosentinel: notSentinel(result.1) && result.1 != ErrInterrupt
 
 //@ func toInt64
 //@ props C04
@@ -248,6 +252,7 @@ package vm
 //@ func tryToInt64
 //@ props C04
 //@ like template.pure
+//@ ensures [C08] nosentinel: notSentinel(result.1) && result.1 != ErrInterrupt
 
 //@ func toInt
 //@ props C04
@@ -256,26 +261,32 @@ package vm
 //@ func tryToInt
 //@ props C04
 //@ like template.pure
+//@ ensures [C08] nosentinel: notSentinel(result.1) && result.1 != ErrInterrupt
 
 //@ func reflectValueSlicetoInterfaceSlice
 //@ props C04
 //@ like template.pure
+//@ loop 0 invariant interfaceSlice == nil || fresh(base(interfaceSlice))
 
 //@ func convertReflectValueToType
 //@ props C04
 //@ like template.pure
+//@ ensures [C08] nosentinel: notSentinel(result.1) && result.1 != ErrInterrupt
 
 //@ func convertSliceOrArray
 //@ props C04
 //@ like template.pure
+//@ ensures [C08] nosentinel: notSentinel(result.1) && result.1 != ErrInterrupt
 
 //@ func convertVMFunctionToType
 //@ props C04
 //@ like template.pure
+//@ ensures [C08] nosentinel: notSentinel(result.1) && result.1 != ErrInterrupt
 
 //@ func convertMap
 //@ props C04
 //@ like template.pure
+//@ ensures [C08] nosentinel: notSentinel(result.1) && result.1 != ErrInterrupt
 
 //@ func checkIfRunVMFunction
 //@ props C04
@@ -284,6 +295,10 @@ package vm
 //@ func processCallReturnValues
 //@ props C04
 //@ like template.pure
+// VM-function protocol (ASSUMED for host functions with the VM signature, proved for funcExpr's closures): the error a
+// function value returns is never a control-flow sentinel, and it is non-nil when a cancellation poll fired inside it
+//@ free_ensures [C08] nosentinel: notSentinel(result.1)
+//@ free_ensures [C02] firederr: callFired(rvs) ==> realErr(result.1)
 
 //@ func int64Value
 //@ props C04
@@ -297,18 +312,27 @@ package vm
 //@ props C04 C02 C08
 //@ like template.evalExpr
 //@ requires callExpr != nil && rt != nil
+//@ loop 0 invariant actInv(runInfo) && runInfo.err == nil && (args == nil || fresh(base(args)))
+//@ loop 1 invariant actInv(runInfo) && runInfo.err == nil && (args == nil || fresh(base(args)))
+//@ loop 2 invariant actInv(runInfo) && runInfo.err == nil && (args == nil || fresh(base(args)))
 
 //@ func (*runInfoStruct).callVMFunctionDirect
 //@ props C04 C02 C08
 //@ like template.evalExpr
 //@ requires callExpr != nil
+//@ ensures [C07 C08 C02] nothandled: !handled ==> runInfo.err == old(runInfo.err) && runInfo.rv == old(runInfo.rv) && polls == old(polls) && fired == old(fired)
+//@ loop 0 invariant actInv(runInfo) && runInfo.err == nil && fresh(base(args))
 
 //@ func makeType
 //@ props C04
 //@ requires riOK(runInfo) && typeStruct != nil
+//@ requires [C08] clean: runInfo.err == nil
 //@ modifies runInfo.err
+//@ ensures [C08] nosentinel: notSentinel(runInfo.err) && runInfo.err != ErrInterrupt
+//@ loops invariant riOK(runInfo) && runInfo.err == nil
 
 //@ func getTypeFromEnv
 //@ props C04
 //@ requires riOK(runInfo) && typeStruct != nil
 //@ modifies runInfo.err
+//@ ensures [C08] nosentinel: notSentinel(runInfo.err) && runInfo.err != ErrInterrupt
